@@ -10,7 +10,7 @@ use ureq_proto::client::flow::RedirectAuthHeaders;
 
 pub struct P;
 
-const NAMES: [&str; 12] = ["cookie", "authorization", "x-added", "Cookie", "accept", "connection", "x-added", "AUTHORIZATION", "user-agent", "x-b3-traceid", "cookie", "if-match"];
+const NAMES: [&str; 13] = ["x-null", "cookie", "authorization", "x-added", "Cookie", "accept", "connection", "x-added", "AUTHORIZATION", "user-agent", "x-b3-traceid", "cookie", "if-match"];
 
 /// Add tagged headers to a flow in its prepare state. Returns what was added (lower-case names).
 fn add_headers(flow: &mut F<Prepare>, rng: &mut Rng, hop: usize, has_host: bool, may_frame: bool, rec: &mut Rec) -> Option<Vec<(String, Vec<u8>)>> {
@@ -128,6 +128,9 @@ fn case(rng: &mut Rng, rec: &mut Rec) {
     let method = if depth == 0 { *rng.pick(&["GET", "POST", "PUT", "HEAD", "DELETE"]) } else { *rng.pick(&["GET", "POST", "HEAD", "DELETE", "PUT"]) };
     let mut cfg = ReqCfg::new(method, &clean_start_uri(rng));
     cfg.orig.push(("x-orig".into(), b"o-1".to_vec()));
+    if rng.chance(1, 4) {
+        cfg.orig.push(("x-null".into(), b"o-null".to_vec()));
+    }
     cfg.orig.push(("cookie".into(), b"o-cookie".to_vec()));
     cfg.orig.push(("authorization".into(), b"o-auth".to_vec()));
     if rng.chance(1, 2) {
@@ -156,16 +159,23 @@ fn case(rng: &mut Rng, rec: &mut Rec) {
         // a content-length may be added only where a body follows and no other framing header is in effect
         let body_method_now = needs_body(eff.method);
         let inherited_cl = eff.depth == 0 && orig_has_cl;
-        let may_frame = body_method_now && !inherited_cl;
+        // on the last flow a body-less method may get a body through the escape hatch; the caller then
+        // frames it with its own content-length (whatever the original request carried is suppressed
+        // after a redirect)
+        let will_despite = hop_i == depth && !body_method_now && !inherited_cl && !orig_chunked && rng.chance(1, 5);
+        let may_frame = (body_method_now && !inherited_cl) || will_despite;
         let added = match add_headers(&mut flow, rng, hop_i, false, may_frame, rec) {
             Some(a) => a,
             None => return,
         };
         if hop_i == depth {
-            if !needs_body(eff.method) && rng.chance(1, 6) {
+            if will_despite || (!needs_body(eff.method) && !added.iter().any(|(n, _)| n == "content-length") && rng.chance(1, 6)) {
                 // the escape hatch is switched on after the headers were added: they must still all be sent
                 flow.send_body_despite_method();
                 rec.cov("despite-after-headers");
+                if added.iter().any(|(n, _)| n == "content-length") {
+                    rec.cov(&format!("despite-with-added-content-length/depth{}", eff.depth));
+                }
             }
             let mut s = flow.proceed();
             rec.call();
@@ -249,6 +259,8 @@ impl Property for P {
         v.push(("expect/*".into(), 50));
         v.push(("original-chunked".into(), 100));
         v.push(("despite-after-headers".into(), 50));
+        v.push(("despite-with-added-content-length/depth1".into(), 3));
+        v.push(("despite-with-added-content-length/depth2".into(), 3));
         v
     }
 }
